@@ -5,6 +5,7 @@ import EaselModel.Simd.Lane32
 import EaselModel.Generated.SimdHelpers
 import EaselModel.Generated.SimdLogExp
 import EaselModel.Vec.Model
+import EaselModel.Vec.Mat
 /-! Line-protocol driver for the C20 model: SIMD helpers (generated), raw intrinsics (semantics table),
     esl_sse_logf/expf (generated lane functions on the hardware float instance), vector routines (hand model). -/
 open EaselModel EaselModel.Proto EaselModel.Simd EaselModel.Vec
@@ -268,7 +269,45 @@ def opVec (ws : List String) : String :=
     | 'I' => if hasY && yb.length / 4 != xb.length / 4 then "bad-op" else opVecI 4 op (ints 4 xb) (ints 4 yb) m ((argInt? ws "k").getD 1)
     | 'L' => if hasY && yb.length / 8 != xb.length / 8 then "bad-op" else
              if op == "MatMax" || op == "MatScale" then "bad-op" else opVecI 8 op (ints 8 xb) (ints 8 yb) m ((argInt? ws "k").getD 1)
+    | 'W' | 'B' => if op == "Copy" then "ok " ++ hexOrDash xb else "bad-op"
     | _ => "bad-op"
+
+/-! ## matrices -/
+def opMat (ws : List String) : String :=
+  match arg? ws "op" with
+  | none => "bad-op"
+  | some full =>
+    let T := full.toList.headD ' '
+    let op := (full.drop 1).toString
+    let M := (argNat? ws "m").getD 1
+    let N := (argNat? ws "n").getD 1
+    let M2 := (argNat? ws "m2").getD 1
+    let N2 := (argNat? ws "n2").getD 1
+    let elem := match T with | 'D' => 8 | 'F' => 4 | 'I' => 4 | _ => 1
+    if M < 1 || N < 1 || M2 < 1 || N2 < 1 then "bad-op" else
+    if op == "Sizeof" then s!"ok {Mat.sizeof elem M N}" else
+    match argHex? ws "x" with
+    | none => "bad-op"
+    | some xb =>
+      let cells := chunks elem xb
+      let flat (o : Option (List (List UInt8))) : String := match o with | some l => "ok " ++ hexOrDash l.flatten | none => "fault"
+      if op == "Set" then
+        match T with
+        | 'D' => "ok " ++ hexOrDash ((List.replicate (M * N) (natLE 8 (Float.ofBits (UInt64.ofNat (((arg? ws "s").bind hexNat?).getD 0))).toBits.toNat)).flatten)
+        | 'F' => "ok " ++ hexOrDash ((List.replicate (M * N) (natLE 4 (Float32.ofBits (UInt32.ofNat (((arg? ws "s").bind hexNat?).getD 0))).toBits.toNat)).flatten)
+        | 'I' => "ok " ++ hexOrDash (ibytes 4 (List.replicate (M * N) ((argInt? ws "k").getD 1)))
+        | _ => "bad-op"
+      else if cells.length != M * N then "bad-op"
+      else if T == 'C' && op != "Rows" && op != "GrowTo" then "bad-op"
+      else match op with
+      | "Rows" => flat (Mat.writeRows M N cells [] (List.replicate (M * N) []))
+      | "Clone" | "Copy" => flat (Mat.readRows M N cells [])
+      | "GrowTo" =>
+        let kept := Mat.growKept M N M2 N2 cells
+        let probe := (List.range (M2 * N2)).map fun k => [UInt8.ofNat (k % 100)]
+        let ok := (Mat.writeRows M2 N2 probe [] (List.replicate (M2 * N2) [])) == some probe
+        "ok kept=" ++ hexOrDash kept.flatten ++ " rows=" ++ (if ok then "rowmajor" else "BROKEN")
+      | _ => "bad-op"
 
 def step (s : Unit) (line : String) : Unit × String :=
   let ws := words line
@@ -280,6 +319,7 @@ def step (s : Unit) (line : String) : Unit × String :=
   | "logf" :: _ => (s, opLogExp true ws)
   | "expf" :: _ => (s, opLogExp false ws)
   | "vec" :: _ => (s, opVec ws)
+  | "mat" :: _ => (s, opMat ws)
   | _ => (s, "bad-op")
 
 def main : IO Unit := runDriver () step
